@@ -61,7 +61,9 @@ Expected(st, op) ==
     [] op.k = "expand" -> [raises |-> FALSE, axes |-> InsertAt(st.axes, op.pos + 1, Plain(1)), meta |-> st.meta]
     [] op.k = "reduce" ->
          IF op.axis >= Len(st.axes) \/ op.axis < 0 THEN [raises |-> TRUE, axes |-> st.axes, meta |-> st.meta]    \* a base axis
-         ELSE [raises |-> FALSE, axes |-> RemoveAt(st.axes, op.axis + 1), meta |-> st.meta]
+         ELSE IF op.keepdims     \* the reduced dimension stays, with length one (its description is not constrained)
+              THEN [raises |-> FALSE, axes |-> [st.axes EXCEPT ![op.axis + 1] = Plain(1)], meta |-> st.meta]
+              ELSE [raises |-> FALSE, axes |-> RemoveAt(st.axes, op.axis + 1), meta |-> st.meta]
     [] op.k = "stack" -> [raises |-> FALSE, axes |-> InsertAt(st.axes, op.pos + 1, Ordinal(9, <<201, 202>>)), meta |-> st.meta]
     [] op.k = "concat" ->
          LET ax == st.axes[op.axis + 1] IN
@@ -69,7 +71,8 @@ Expected(st, op) ==
           axes |-> [st.axes EXCEPT ![op.axis + 1] = [ax EXCEPT !.vals = ax.vals \o ax.vals, !.n = 2 * ax.n]]]
     [] op.k = "arith" -> [raises |-> FALSE, axes |-> st.axes, meta |-> st.meta]
 
-AxisEq(a, b) == /\ a.kind = b.kind /\ a.n = b.n
+AxisEq(a, b) == IF b.kind = "plain" /\ b.n = 1 THEN a.n = 1 ELSE     \* expected: any description of a length-one dimension
+                /\ a.kind = b.kind /\ a.n = b.n
                 /\ (a.kind = "ordinal" => a.vals = b.vals /\ a.lab = b.lab)
                 /\ (a.kind = "linear" => a.lab = b.lab /\ (a.n = 0 \/ (REq(a.off, b.off) /\ REq(a.samp, b.samp))))   \* an empty axis has no coordinates
 AxesEq(x, y) == Len(x) = Len(y) /\ \A i \in 1..Len(x) : AxisEq(x[i], y[i])
